@@ -669,6 +669,7 @@ func (c *Ctx) ParamSchema(in string, label string) *Schema {
 		if c.AllowSchema(r, in) {
 			s = r
 			c.Tag("param:schema-ref")
+			s = c.maybeAliasHops(s, in, label)
 		}
 	}
 	if isArray {
@@ -679,6 +680,22 @@ func (c *Ctx) ParamSchema(in string, label string) *Schema {
 		}
 	}
 	return s
+}
+
+// maybeAliasHops: now and then the reference goes through one or two alias components
+// (`A: {$ref: B}`) before it reaches the schema.
+func (c *Ctx) maybeAliasHops(ref *Schema, pos, label string) *Schema {
+	for hops := rapid.SampledFrom([]int{0, 0, 0, 1, 1, 2}).Draw(c.T, label+"_alias_hops"); hops > 0; hops-- {
+		name := c.CompName("Aka", label+"_alias")
+		a := c.AddSchema(name, &Schema{Ref: ref.Ref})
+		if !c.AllowSchema(a, pos) {
+			delete(c.comps().Schemas, name)
+			break
+		}
+		ref = a
+		c.Tag("param:schema-ref-through-alias")
+	}
+	return ref
 }
 
 // Param draws a parameter declaration for location in; it may be placed into
